@@ -459,7 +459,13 @@ def bootlinks(cfg=None, reopen_ok=True):
     body = st.builds(lambda first, rest: first + rest, st.lists(add_fp(length=st.sampled_from([5000, 3]), d=st.just(0), file=st.just(False)), min_size=0, max_size=1), st.lists(st.one_of(*body_choices), min_size=2, max_size=12))
     # 'hideall': every name of the boot file goes, then (after a reopen) El Torito itself - the content's last reference
     hideall = st.sampled_from([[], [], [{'k': 'rm_link', 'b': 0, 'j': 0}] * 4 + ([{'k': 'reopen'}] if reopen_ok else [{'k': 'write'}]) + [{'k': 'rm_boot'}, {'k': 'write'}]])
-    return program(c, st.builds(lambda f, o, b, p, u, m, h, t: [f] + o + b + p + u + m + h + t, bootfile, other, boots, prelinks, unlink_iso, st.one_of(*mid_choices), hideall, body))
+    plain = st.builds(lambda f, o, b, p, u, m, h, t: [f] + o + b + p + u + m + h + t, bootfile, other, boots, prelinks, unlink_iso, st.one_of(*mid_choices), hideall, body)
+    # a diskette image (floppy emulation: the catalogue entry's sector count is 1, the image is the whole medium) that loses its
+    # only name, a reopen, then edits
+    floppy = st.builds(lambda f, o, b, m, t: [f] + o + [dict(b, b=0, j=0, media=3, load=None, efi=False, bit=False)] + [{'k': 'rm_link', 'b': 0, 'j': 0, 'bo': 1}] + m + t,
+                       add_fp(length=st.sampled_from([1474560, 1228800]), ck=st.just(0), ns=st.just(1), d=st.just(0), file=st.just(False)), other, add_boot,
+                       st.one_of(*mid_choices), body)
+    return program(c, weighted([(plain, 9), (floppy, 1)]))
 
 
 def twoboots(cfg=None, reopen_ok=True):
